@@ -110,6 +110,9 @@ def expected_probes(st):
         if st["diagnostics.unbalancedTransactions"]:
             codes.add("UNBALANCED")
     exp["codes"] = codes
+    # the probe's included file has 3.1 kB; diagnostics must be on for the report to be seen
+    # (the including document itself has about 31 bytes: below that the load stops at the document)
+    exp["bigTooLarge"] = (40 <= st["limits.maxFileSizeBytes"] < 3000) if (st["features.diagnostics"] and st["limits.maxFileSizeBytes"] >= 40) else None
     return exp
 
 
@@ -152,6 +155,10 @@ def evaluate(c, res):
                 break
             if gp.get("indent") != ep["indent"]:
                 divs.append(("probe:indent", "step %d payload %s: formatting indents by %r, indentSize in effect should be %r" % (k, pj[:200], gp.get("indent"), ep["indent"])))
+                break
+            if ep["bigTooLarge"] is not None and "bigTooLarge" in gp and gp["bigTooLarge"] != ep["bigTooLarge"]:
+                divs.append(("probe:include-size-limit", "step %d payload %s: a document that includes a file of 3.1 kB (already in the loader's cache) %s 'too large', limits.maxFileSizeBytes in effect is %r" % (
+                    k, pj[:200], "reports" if gp["bigTooLarge"] else "does not report", exp["limits.maxFileSizeBytes"])))
                 break
             gc = set(x for x, on in (gp.get("codes") or {}).items() if on and x in ("UNDECLARED_ACCOUNT", "UNDECLARED_COMMODITY", "UNBALANCED"))
             if gc != ep["codes"]:
